@@ -68,6 +68,34 @@ namespace
       const String cn = String("gauss-legendre:") + stringify((6 + extra) / 2 + 1);
       Cubature::DynamicFactory cf(cn);
       auto& velo = base.velo;
+      // ---------------------------------------------------------------- negatively oriented cells
+      // The voxel kernels weight with the signed Jacobian determinant, the classic assemblers with its absolute value.
+      // On meshes with negatively oriented (mirrored) cells this is checked once, under its own key; all other voxel
+      // checks run on the positively oriented meshes of the family.
+      {
+        bool negative = false;
+        for(auto& g : mc.geoms)
+        {
+          std::array<LD, D> ctr; ctr.fill(LD(0));
+          negative = negative || (g.det.eval(ctr) < 0);
+        }
+        if(negative)
+        {
+          CSR A, B;
+          Assembly::SymbolicAssembler::assemble_matrix_std1(A, velo);
+          B = A.clone(LAFEM::CloneMode::Layout);
+          A.format(); B.format();
+          Assembly::Common::LaplaceOperator lap;
+          Assembly::BilinearOperatorAssembler::assemble_matrix1(A, lap, velo, cf);
+          VoxelAssembly::VoxelPoissonAssembler<SpaceType, double, Index> va(velo, coloring, D == 3 ? 8 : 4);
+          va.assemble_matrix1(B, velo, cf);
+          bool lay = false, bit = false;
+          double d = max_rel_diff(A, B, &lay, &bit);
+          c.count("negatively_oriented_meshes");
+          c.check(lay && d <= 1e-12, kt + " negative-orientation", [&]{ return "mesh with negatively oriented cells: voxel Poisson matrix differs from the classic Laplace matrix by " + std::to_string(d) + " (voxel kernels use the signed determinant)"; });
+          return;
+        }
+      }
       // ---------------------------------------------------------------- Poisson
       {
         CSR A, B;
@@ -143,8 +171,19 @@ namespace
           c.count("voxel_matrices");
           bool lay = false;
           double d = max_rel_diff_b<D, D>(A, B, &lay);
-          c.check(lay && d <= 1e-12, kt + " burgers.route-matrix." + cg.name, [&]{ return "voxel Burgers matrix differs from BurgersAssembler by " + std::to_string(d) + " (" + std::to_string(nthreads) + " threads)"; });
-          if(cg.sd == 0.0)
+          bool frechet_dropped = false;
+          if(!(lay && d <= 1e-12) && cg.fbeta != 0.0 && cg.beta == 0.0 && cg.sd == 0.0 && cg.nu == 0.0 && cg.theta == 0.0)
+          {
+            // only the Frechet term is requested: is the voxel matrix simply zero?
+            double mx = 0;
+            for(Index kk = 0; kk < B.used_elements(); ++kk) for(int a = 0; a < D; ++a) for(int b = 0; b < D; ++b) mx = std::max(mx, std::fabs(B.val()[kk][a][b]));
+            frechet_dropped = (mx == 0.0);
+          }
+          if(frechet_dropped)
+            c.fail(kt + " burgers.frechet-without-beta-dropped", "frechet_beta != 0 with beta == 0 and sd_delta == 0: the voxel Burgers matrix is zero (convection dofs are only gathered for beta != 0 or streamline diffusion)");
+          else
+            c.check(lay && d <= 1e-12, kt + " burgers.route-matrix." + cg.name, [&]{ return "voxel Burgers matrix differs from BurgersAssembler by " + std::to_string(d) + " (" + std::to_string(nthreads) + " threads)"; });
+          if(cg.sd == 0.0 && !frechet_dropped)
           {
             auto form = [&](const Field<D>& u, const Field<D>& w)
             {
